@@ -719,8 +719,13 @@ func buildModels(P *Program) map[string]Model {
 		if v, ok := m.cfg.Env[key]; ok {
 			return m.mkString(v)
 		}
-		if m.cfg.SymEnvLen > 0 {
-			return m.symString("env_"+key, m.cfg.SymEnvLen)
+		if m.cfg.SymEnvLen > 0 && strings.HasPrefix(key, "FRUGAL_") && !m.inBase {
+			if v, ok := m.envCache[key]; ok {
+				return v
+			}
+			v := m.symString("env_"+key, m.cfg.SymEnvLen)
+			m.envCache[key] = v
+			return v
 		}
 		return m.mkString("")
 	}
